@@ -6,6 +6,9 @@ programs (any number of threads, any sequences of insert / find / traversal oper
 EVERY schedule `sched : List Tid` of the atomic-access-level model, i.e. every sequentially consistent interleaving of
 the loads of `next`, the stores to a private node's `next` and the CAS on `prev.next`.
 
+Since the fault annotations (`Op.arm`) are part of the programs, every theorem about `SplitOrder.sys` / `SkipList.sys` below
+also covers runs in which user functors throw; `insert_throw_safe` / `splitorder_throw_safe` add the allocator ledger.
+
 `s.L.chain` is the ghost list; `caslist_sorted_nodup` shows that it is exactly what the `next` pointers say
 (`follow`), so every statement about `chain` is a statement about the linked list reachable from the head.
 `s.log` = results of completed operations (newest first); `Res.ins k ok n` = an insert of key `k` reported `ok`
@@ -15,6 +18,9 @@ import TbbVerif.Proofs.C12.CasListFacts
 import TbbVerif.Proofs.C12.Bits
 import TbbVerif.Proofs.C12.SplitOrderInv
 import TbbVerif.Proofs.C12.SkipListFacts
+import TbbVerif.Proofs.C12.SkipListFree
+import TbbVerif.Proofs.C12.SkipListMulti
+import TbbVerif.Proofs.C12.SplitOrderFree
 import TbbVerif.Proofs.C12.Sizing
 import TbbVerif.Generated.C12
 
@@ -141,6 +147,49 @@ theorem trav_begin (rule : Key → Rule) (L : LSt) (t : Tid) (th : Th) (rest : L
     (hpc : th.pc = .idle) (hops : th.ops = .trav :: rest) :
     (thStep rule L t th).th.pc = .twalk ∧ (thStep rule L t th).th.snap = L.chain := by
   simp [thStep, hpc, hops]
+
+/-! ### `count()` / `equal_range()` of the multi containers under concurrent inserts -/
+
+/-- **What `count(k)` of a multi container returns while other threads insert.**  `count` is `std::distance` over
+`equal_range(k)`: walk to the first equivalent element (`first`), walk past the equivalent elements to the element that
+ends the run (`second`), then walk from `first` to `second` again, counting.  For every tie rule, any number of threads
+and every schedule, a completed `count(k) = n` satisfies `lo ≤ n ≤ hi`, where (`count_reports`) `lo` is the number of
+equivalent elements that were in the list when the call began and `hi` is the number of equivalent elements in the list when it
+returned PLUS the number of elements of OTHER keys that were linked between its begin and its return.
+Both bounds are attained.  The second term of `hi` cannot be dropped (`count_over_reports`): an element of another key that
+is linked between the last equivalent element and `second` after `second` was determined is counted, so `count(k)` can exceed
+the number of elements with key `k` that were ever inserted.  The property text lists `count` among the safe operations but
+states no exactness clause for it; the walks themselves are safe (`caslist_count_bounds` is proved from the same invariant as
+the traversals: every node they stand on is in the list), so this is recorded as an observation, not as a violation. -/
+theorem caslist_count_bounds (rule : Key → Rule) (progs : List (List Op)) (sched : List Tid)
+    (s : St) (hs : s = (sys rule progs).run sched) (t : Tid) (k : Key) (n lo hi : Nat)
+    (h : (t, Res.count k n lo hi) ∈ s.log) : lo ≤ n ∧ n ≤ hi := by
+  subst hs
+  exact (inv_reachable rule progs sched).logok _ h
+
+/-- what `lo` / `hi` are: the snapshot is the list when the call begins, and the call reports the number of nodes it walked
+together with `countLo` / `countHi` of the list as it is when it returns -/
+theorem count_reports (rule : Key → Rule) (L : LSt) (t : Tid) (th : Th) :
+    (∀ k start rest, th.pc = .idle → th.ops = .count k start :: rest → validFind L k start = true →
+        (thStep rule L t th).th.pc = .cfirst ∧ (thStep rule L t th).th.k = k ∧ (thStep rule L t th).th.snap = L.chain) ∧
+    (th.pc = .cdist → L.next th.prev = th.second →
+        (thStep rule L t th).res = some (.count th.k th.seen.length (countLo rule L th.k th.snap) (countHi rule L th.k th.snap))) ∧
+    (∀ k snap, countLo rule L k snap = (snap.filter (fun x => sameKey rule (L.key x) k)).length ∧
+        countHi rule L k snap = (L.chain.filter (fun x => sameKey rule (L.key x) k)).length +
+          (L.chain.filter (fun x => !sameKey rule (L.key x) k && !snap.contains x)).length) := by
+  refine ⟨?_, ?_, fun k snap => ⟨rfl, rfl⟩⟩
+  · intro k start rest hpc hops hv
+    simp [thStep, hpc, hops, hv]
+  · intro hpc hsec
+    simp [thStep, hpc, hsec]
+
+/-- **`count(k)` can exceed the number of elements with key `k` ever inserted** (ordered multi container, 2 threads): thread 0
+inserts 9 and 5 and calls `count(5)`; after it has determined `second` = the node of 9, thread 1 links 7 between 5 and 9; the
+distance walk counts 5 and 7: `count(5) = 2` although a single 5 was ever inserted (`lo = 1`, `hi = 1 + 1`). -/
+theorem count_over_reports :
+    (0, Res.count ⟨5, 0⟩ 2 1 2) ∈ ((sys (fun _ => .after)
+      [[.ins ⟨9, 0⟩ 0, .ins ⟨5, 0⟩ 0, .count ⟨5, 0⟩ 0], [.ins ⟨7, 0⟩ 0]]).run
+      (List.replicate 11 0 ++ List.replicate 6 1 ++ List.replicate 6 0)).log := by decide
 
 /-! ### split-order arithmetic and bucket entry points -/
 
@@ -440,28 +489,37 @@ theorem splitorder_dummy_position (cfg : SplitOrder.Cfg) (bc : Nat) (progs : Lis
 /-! ### the skip list: the model the E-SHIM traces of the ordered containers are replayed on -/
 
 /-- **Levels.**  In every reachable state of the SkipList system (any number of threads, any schedule, any node
-heights in `1..max_level`): every level `l` is a well-formed CAS list — the nodes reachable through `next[l]` from
-the head are the ghost chain of the level, without repetition and sorted by the comparator; every node of level
-`l+1` is a node of level `l` (nodes are linked bottom-up by their owner, so everything is on level 0) and only
-nodes taller than `l` are on level `l`; level 0 is the head plus exactly the nodes whose insert is logged as
-successful; and in unique-key containers every level is a SUB-SEQUENCE of the level below, strictly sorted.
-(`skiplist_levels_sublists_partial`: for multi containers the sub-sequence statement
-`∀ l, (chain (l+1)).Sublist (chain l)` — equal keys ordered by `index_number` on every level — is not proved; what is
-proved for them is sortedness of every level and the subset relation.  It is checked on every replayed trace by
-the model (`levels 1` in the driver's state line) and on the implementation by the harness's structure monitor.) -/
-theorem skiplist_levels_sublists_partial (cfg : SkipList.Cfg) (progs : List (List SkipList.Op)) (sched : List Tid)
+heights in `1..max_level`, any fault annotations; unique AND multi containers): every level `l` is a well-formed CAS
+list — the nodes reachable through `next[l]` from the head are the ghost chain of the level, without repetition and
+sorted by the comparator; every node of level `l+1` is a node of level `l` (nodes are linked bottom-up by their owner,
+so everything is on level 0) and only nodes taller than `l` are on level `l`; level 0 is the head plus exactly the
+nodes whose insert is logged as successful; **every level is a SUB-SEQUENCE of the level below**; in unique-key
+containers every level is strictly sorted by key, and in multi containers every level is strictly sorted by
+(key, `index_number`) lexicographically — equal keys stand on every level in the order of their index numbers, which is
+their order on level 0.  (Multi containers: `Proofs/C12/SkipListMulti.lean`: the level-0 predecessor's index number + 1
+is taken while the node is private; the first upper-level attempt links behind the last key `≤`, which on level 0 sits at
+or before the level-0 predecessor; a re-search after a failed CAS walks past equal keys with index number `≤` its own.) -/
+theorem skiplist_levels_sublists (cfg : SkipList.Cfg) (progs : List (List SkipList.Op)) (sched : List Tid)
     (s : SkipList.St) (hs : s = (SkipList.sys cfg progs).run sched) :
     (∀ l, follow (s.core.next l) (s.core.chain l).length 0 = s.core.chain l ∧ (s.core.chain l).head? = some 0 ∧
           (s.core.chain l).Nodup ∧ (s.core.chain l).Pairwise (fun a b => (s.core.key a).ok ≤ (s.core.key b).ok)) ∧
     (∀ l, ∀ x ∈ s.core.chain (l + 1), x ∈ s.core.chain l) ∧
     (∀ l x, x ∈ s.core.chain l → x ≠ 0 → l < s.core.height x) ∧
     (∀ x, x ∈ s.core.chain 0 ↔ x = 0 ∨ x ∈ s.core.wins) ∧ s.core.wins = s.log.filterMap SkipList.succNodeK ∧
-    (cfg.multi = false → ∀ l, (s.core.chain (l + 1)).Sublist (s.core.chain l) ∧
-        (s.core.chain l).Pairwise (fun a b => (s.core.key a).ok < (s.core.key b).ok)) := by
+    (∀ l, (s.core.chain (l + 1)).Sublist (s.core.chain l)) ∧
+    (cfg.multi = false → ∀ l, (s.core.chain l).Pairwise (fun a b => (s.core.key a).ok < (s.core.key b).ok)) ∧
+    (cfg.multi = true → ∀ l, (s.core.chain l).Pairwise (fun a b => (s.core.key a).ok < (s.core.key b).ok ∨
+        ((s.core.key a).ok = (s.core.key b).ok ∧ s.core.idx a < s.core.idx b))) := by
   subst hs
   have h := SkipList.kinv_reachable cfg progs sched
   refine ⟨fun l => ⟨follow_chain (h.g.lv l), (h.g.lv l).head, (h.g.lv l).nodup, (h.g.lv l).sorted⟩, h.g.sub, h.g.hgt,
-    h.g.wins_mem, h.wins, fun hm l => ⟨SkipList.level_sublist h.g hm l, SkipList.strict_of_uniq h.g hm l⟩⟩
+    h.g.wins_mem, h.wins, ?_, fun hm l => SkipList.strict_of_uniq h.g hm l, ?_⟩
+  · intro l
+    cases hm : cfg.multi with
+    | false => exact SkipList.level_sublist h.g hm l
+    | true => exact SkipList.level_sublist_multi h (SkipList.minv_reachable cfg hm progs sched).2 l
+  · intro hm l
+    exact (SkipList.minv_reachable cfg hm progs sched).2.lex l
 
 /-- **A search from any level lands on the level-0 lower bound.**  (1) pure: in a list sorted by the comparator the
 walk from ANY member below the key finds the same first element `≥ key` as the walk from the head.  (2) In every
@@ -524,6 +582,103 @@ theorem skiplist_results (cfg : SkipList.Cfg) (progs : List (List SkipList.Op)) 
   · intro t seen snap hm
     have := h.logok _ hm
     exact ⟨this.1, this.1.nodup (h.g.lv 0).nodup, this.2⟩
+
+/-! ### user functors that throw (comparator, hasher, key_equal, element constructor, allocator) -/
+
+/-- **The exception paths of the insertions, as regenerated from the headers on this run.**  `concurrent_skip_list::
+internal_insert` has no handler (RAII guard, `try_call(..).on_exception`, `catch`) that deletes the node of an insertion
+which is left by an exception AFTER the node was CAS-linked on level 0 (`slFreeOnThrowLinked`; the models' default `Cfg`
+is built from the regenerated values); the only call that can run user code after that link is the re-search
+`internal_find_position` (the models' `refind` step); and `concurrent_unordered_base::internal_insert` calls no user code at
+all after `try_insert` succeeded (the SplitOrder model has no throwing step behind the link). -/
+theorem generated_throw_policy :
+    Generated.C12.slFreeOnThrowLinked = false ∧ ({} : SkipList.Cfg).freeLinked = false ∧
+    Generated.C12.slThrowSitesAfterLink = ["internal_find_position"] ∧ Generated.C12.uoThrowSitesAfterLink = [] := by decide
+
+/-- **A throwing user functor never makes a dead node reachable (ordered containers).**  Programs may annotate any operation
+with a fault (`Op.arm kind n`: its `n`-th comparator call, its element constructor, the allocation of its node or of the
+head node throws), so this quantifies over EVERY fault position, any number of threads and every schedule.  For every
+configuration in which the node of an insertion that threw after its level-0 link is NOT deleted (`cfg.freeLinked = false`;
+the regenerated code: `generated_throw_policy`) — whether or not the code deletes the node of an insertion that threw
+BEFORE the link (`freeUnlinked`, the leak the unchanged code has) — in every reachable state, states after throwing
+operations included:
+nothing is handed back to the allocator twice; a freed node is allocated, is not the head and is on NO level; hence every
+node reachable from the head on any level is allocated and not freed; a thread that is still inside an insertion has not
+had its node freed (it can neither link a dead node nor free it again), and every walker (descent, re-search, lookup,
+traversal) stands on a live node; an insertion that threw after linking its node `n` (`Res.threw (some n)`) leaves `n` in the
+list — alive — and one that threw before leaves the list as it was (`chain 0` is the head plus exactly the nodes whose link
+was logged, `skiplist_levels_sublists`, which also gives: every level sorted, duplicate-free, a sub-sequence of the level
+below, in every such state). -/
+theorem insert_throw_safe (cfg : SkipList.Cfg) (hpol : cfg.freeLinked = false) (progs : List (List SkipList.Op))
+    (sched : List Tid) (s : SkipList.St) (hs : s = (SkipList.sys cfg progs).run sched) :
+    s.freed.Nodup ∧
+    (∀ x ∈ s.freed, x < s.core.fresh ∧ x ≠ 0 ∧ ∀ l, x ∉ s.core.chain l) ∧
+    (∀ l, ∀ x ∈ s.core.chain l, x < s.core.fresh ∧ x ∉ s.freed) ∧
+    (∀ (t : Tid) (th : SkipList.Th), s.ths[t]? = some th →
+        (th.pc.inIns = true → th.new ∉ s.freed) ∧
+        (th.pc = .desc ∨ th.pc = .refind ∨ th.pc = .fdesc ∨ th.pc = .twalk → th.prev ∉ s.freed)) ∧
+    (∀ t n, (t, SkipList.Res.threw (some n)) ∈ s.log → n ∈ s.core.chain 0 ∧ n ∉ s.freed) := by
+  subst hs
+  obtain ⟨hk, hf⟩ := SkipList.freeinv_reachable cfg hpol progs sched
+  have hlive : ∀ l, ∀ x ∈ ((SkipList.sys cfg progs).run sched).core.chain l, x ∉ ((SkipList.sys cfg progs).run sched).freed :=
+    fun l x hx hm => hf.notin x hm l hx
+  refine ⟨hf.nodup, ?_, fun l x hx => ⟨hk.g.mem_lt hx, hlive l x hx⟩, ?_, ?_⟩
+  · intro x hx
+    refine ⟨hf.lt x hx, ?_, hf.notin x hx⟩
+    intro h0; subst h0
+    exact hf.notin 0 hx 0 (hk.g.head_mem 0)
+  · intro t th hth
+    refine ⟨hf.live t th hth, ?_⟩
+    have ht := hk.tinv t th hth
+    unfold SkipList.TInvK at ht
+    rintro (hpc | hpc | hpc | hpc) <;> simp only [hpc] at ht
+    · exact hlive _ _ ht.2.2.1.1
+    · exact hlive _ _ ht.2.2.2.2.2.2.2.2.1
+    · exact hlive _ _ ht.2.1
+    · exact hlive 0 _ ht.prev_mem
+  · intro t n hm
+    have := hk.logok _ hm
+    exact ⟨this.1, hlive 0 n this.1⟩
+
+set_option maxRecDepth 20000 in
+/-- **… and the handler of `seeded/c12-c` is refuted on the model**: with `freeLinked = true` (an RAII guard around
+`internal_insert_node` that deletes the node unless the insertion reported success) the 2-thread run below — thread 0
+links key 30 (height 2) on level 0, thread 1 links key 20 (height 2) on both levels, thread 0's level-1 CAS fails, the
+re-search calls the comparator, its 6th call throws — reaches a state in which node 3 is freed AND still on level 0. -/
+theorem insert_throw_unsafe_if_linked_node_freed :
+    ∃ (progs : List (List SkipList.Op)) (sched : List Tid) (x : Node),
+      x ∈ ((SkipList.sys { freeLinked := true, freeUnlinked := true } progs).run sched).freed ∧
+      x ∈ ((SkipList.sys { freeLinked := true, freeUnlinked := true } progs).run sched).core.chain 0 :=
+  ⟨[[.ins 10 3, .ins 50 3, .arm 1 6, .ins 30 2, .find 30], [.ins 20 2]],
+   List.replicate 40 0 ++ List.replicate 40 1 ++ List.replicate 30 0, 3, by decide, by decide⟩
+
+/-- **A throwing user functor never makes a dead node reachable (unordered containers).**  For EVERY configuration (whether
+or not the node of an insertion that is left by an exception of `key_equal` is destroyed), any number of threads, every
+schedule and every fault position (`Op.arm kind n`: the `n`-th `key_equal` call or the hasher of the next operation throws):
+nothing is destroyed twice; a destroyed node is allocated and not in the list; every node reachable from the head — and
+therefore every bucket entry (`splitorder_table_valid`) — is allocated and alive; a thread inside an insertion (regular or
+dummy node) still owns a live node; and the list is in every such state what `splitorder_sorted_nodup` says (sorted,
+duplicate-free, exactly the logged links).  There is no "linked" case: the code calls no user functor after the link
+(`generated_throw_policy`). -/
+theorem splitorder_throw_safe (cfg : SplitOrder.Cfg) (bc : Nat) (progs : List (List SplitOrder.Op))
+    (hbc : ∃ k, k ≤ 63 ∧ bc = 2 ^ k) (sched : List Tid)
+    (s : SplitOrder.St) (hs : s = (SplitOrder.sys cfg bc progs).run sched) :
+    s.freed.Nodup ∧
+    (∀ x ∈ s.freed, x < s.L.fresh ∧ x ≠ 0 ∧ x ∉ s.L.chain) ∧
+    (∀ x ∈ s.L.chain, x < s.L.fresh ∧ x ∉ s.freed) ∧
+    (∀ b d, s.slot b = some d → d ∉ s.freed) ∧
+    (∀ (t : Tid) (th : SplitOrder.Th), s.ths[t]? = some th → th.pc.inIns = true → th.new ∉ s.freed ∧ th.prev ∉ s.freed) := by
+  subst hs
+  obtain ⟨hi, hf⟩ := SplitOrder.freeinv_reachable cfg bc progs hbc sched
+  have hlive : ∀ x ∈ ((SplitOrder.sys cfg bc progs).run sched).L.chain, x ∉ ((SplitOrder.sys cfg bc progs).run sched).freed :=
+    fun x hx hm => hf.notin x hm hx
+  refine ⟨hf.nodup, ?_, fun x hx => ⟨hi.good.alloc x hx, hlive x hx⟩, fun b d hd => hlive d (hi.table b d hd).1, ?_⟩
+  · intro x hx
+    refine ⟨hf.lt x hx, ?_, hf.notin x hx⟩
+    intro h0; subst h0
+    exact hf.notin 0 hx hi.good.head_mem
+  · intro t th hth hin
+    exact ⟨hf.live t th hth hin, hlive _ (SplitOrder.insinv_of_inIns (hi.tinv t th hth) hin).prev_mem⟩
 
 /-! ### non-vacuity: concrete runs of the executable model -/
 
@@ -596,6 +751,41 @@ example : ((SkipList.sys {} skProgs).run skSched).core.chain 1 = [0, 3, 1] ∧
 set_option maxRecDepth 20000 in
 example : (((SkipList.sys {} skProgs).run skSched).log.filter (SkipList.isSuccK 5)).length = 1 ∧
     ((SkipList.sys {} skProgs).run skSched).ths.all (fun th => th.ops.isEmpty) = true := by decide
+/-- a multi container: three threads insert the same key with heights 3, 2, 3 (alternating steps): upper-level CAS failures and
+re-searches by index number; every level lists the equal keys in the order of level 0 -/
+def mkProgs : List (List SkipList.Op) := [[.ins 4 3, .ins 4 2], [.ins 4 2, .trav], [.ins 4 3]]
+def mkSched : List Tid := (List.range 240).map (· % 3)
+set_option maxRecDepth 40000 in
+example : ((SkipList.sys { multi := true } mkProgs).run mkSched).ths.all (fun th => th.ops.isEmpty) = true ∧
+    ((SkipList.sys { multi := true } mkProgs).run mkSched).core.chain 0 = [0, 1, 2, 4, 3] ∧
+    ((SkipList.sys { multi := true } mkProgs).run mkSched).core.chain 1 = [0, 1, 2, 4, 3] ∧
+    ((SkipList.sys { multi := true } mkProgs).run mkSched).core.chain 2 = [0, 1, 3] ∧
+    (((SkipList.sys { multi := true } mkProgs).run mkSched).core.chain 0).map
+      ((SkipList.sys { multi := true } mkProgs).run mkSched).core.idx = [0, 1, 2, 3, 4] := by decide
+
+/-- fault runs: thread 0 pre-inserts 10 and 50 (height 3), then inserts 30 (height 2) with the 6th comparator call of that
+insertion throwing; it is held right before its level-1 CAS while thread 1 inserts 20 (height 2) completely -/
+def thProgs (k : Nat) : List (List SkipList.Op) := [[.ins 10 3, .ins 50 3, .arm 1 k, .ins 30 2, .find 30], [.ins 20 2]]
+def thSched : List Tid := List.replicate 40 0 ++ List.replicate 40 1 ++ List.replicate 30 0
+/-- what the unchanged header does: no handler deletes the node of an insertion that throws -/
+def thCfg : SkipList.Cfg := { freeUnlinked := false, freeLinked := false }
+-- the insertion throws after the link (call 6 is in the re-search), node 3 stays on level 0
+-- only (its level-1 link never happens), nothing is freed, the later lookup finds it
+set_option maxRecDepth 20000 in
+example : (0, SkipList.Res.threw (some 3)) ∈ ((SkipList.sys thCfg (thProgs 6)).run thSched).log ∧
+    ((SkipList.sys thCfg (thProgs 6)).run thSched).freed = [] ∧
+    ((SkipList.sys thCfg (thProgs 6)).run thSched).core.chain 0 = [0, 1, 4, 3, 2] ∧
+    ((SkipList.sys thCfg (thProgs 6)).run thSched).core.chain 1 = [0, 1, 4, 2] ∧
+    (0, SkipList.Res.find 30 true (some 3)) ∈ ((SkipList.sys thCfg (thProgs 6)).run thSched).log := by decide
+-- the 3rd call is in the first descent: the insertion throws before the link, the list does not contain 30
+set_option maxRecDepth 20000 in
+example : (0, SkipList.Res.threw none) ∈ ((SkipList.sys thCfg (thProgs 3)).run thSched).log ∧
+    ((SkipList.sys thCfg (thProgs 3)).run thSched).core.chain 0 = [0, 1, 4, 2] := by decide
+-- unordered: key_equal throws in the search of an insertion whose order key collides with a present element
+set_option maxRecDepth 20000 in
+example : (0, Res.threw) ∈ ((SplitOrder.sys { freeUnlinked := false } 2 [[.ins 6 1, .arm 1 1, .ins 6 2]]).run (List.replicate 40 0)).log ∧
+    ((SplitOrder.sys { freeUnlinked := false } 2 [[.ins 6 1, .arm 1 1, .ins 6 2]]).run (List.replicate 40 0)).freed = [] ∧
+    ((SplitOrder.sys { freeUnlinked := true } 2 [[.ins 6 1, .arm 1 1, .ins 6 2]]).run (List.replicate 40 0)).freed ≠ [] := by decide
 end Examples
 
 end TbbVerif.C12
